@@ -168,11 +168,6 @@ pub fn exec(song: &mut Song, tokens: &Vec<Token>) -> bool {
             },
             TokenType::Track => {
                 let no = exec_value_int_by_token(song, t) as usize;
-                // a pending octave-once (` or ") belongs to the track it was written on
-                if song.flags.octave_once != 0 {
-                    trk!(song).octave = trk!(song).octave - song.flags.octave_once;
-                    song.flags.octave_once = 0;
-                }
                 song.change_cur_track(no);
             },
             TokenType::Channel => {
@@ -934,7 +929,7 @@ fn exec_play(song: &mut Song, t: &Token) -> bool {
     }
     trk!(song).timepos = time_ptr_last;
     song.track_sync();
-    song.cur_track = tmp_cur_track;
+    song.change_cur_track(tmp_cur_track);
     true
 }
 
